@@ -141,6 +141,66 @@ theorem C10_parens_blanks {s1 s2 : List Char} {ts1 ts2 : List (Tok Char)} {e : R
   have := (a1 w).trans (a2 w).symm
   cases h : N1.accepts w <;> cases h' : N2.accepts w <;> simp_all
 
+/-- **Equal denotations, equal languages.**  Two strings whose trees have the same denotation
+over `Σ` — e.g. trees that differ by associativity-redundant parentheses, `a(bc)` vs `abc`,
+`a|(b|c)` vs `a|b|c`, which the grammar parses to *different* trees — compile to NFAs with the
+same verdict on every word.  (`C10_parens_blanks` is the special case of equal trees.) -/
+theorem C10_same_den {s1 s2 : List Char} {ts1 ts2 : List (Tok Char)} {e1 e2 : Rx Char}
+    (hr1 : Renders ts1 s1) (hg1 : G .E e1 ts1) (hr2 : Renders ts2 s2) (hg2 : G .E e2 ts2)
+    (syms : List Char) (hres : ∀ c ∈ syms, isReserved c = false)
+    (hl1 : ∀ a ∈ e1.lits, a ∈ syms) (hl2 : ∀ a ∈ e2.lits, a ∈ syms)
+    (hden : den syms e1 = den syms e2) :
+    ∃ N1 N2, fromRegex s1 (some syms) = .ok N1 ∧ fromRegex s2 (some syms) = .ok N2 ∧
+      ∀ w, N1.accepts w = N2.accepts w := by
+  obtain ⟨N1, h1, _, a1⟩ := C10_compile hr1 hg1 syms hres hl1
+  obtain ⟨N2, h2, _, a2⟩ := C10_compile hr2 hg2 syms hres hl2
+  refine ⟨N1, N2, h1, h2, fun w => ?_⟩
+  have := (a1 w).trans ((hden ▸ Iff.rfl : w ∈ den syms e1 ↔ w ∈ den syms e2).trans (a2 w).symm)
+  cases h : N1.accepts w <;> cases h' : N2.accepts w <;> simp_all
+
+/-- Concatenation and the binary operators are associative on denotations, so the
+associativity reading of "redundant parentheses" is an instance of `C10_same_den`. -/
+theorem C10_assoc_den (syms : List Char) (e f g : Rx Char) :
+    den syms (.cat e (.cat f g)) = den syms (.cat (.cat e f) g) ∧
+    den syms (.union e (.union f g)) = den syms (.union (.union e f) g) ∧
+    den syms (.inter e (.inter f g)) = den syms (.inter (.inter e f) g) := by
+  refine ⟨?_, ?_, ?_⟩
+  · show den syms e * (den syms f * den syms g) = den syms e * den syms f * den syms g
+    exact (mul_assoc _ _ _).symm
+  · show den syms e + (den syms f + den syms g) = den syms e + den syms f + den syms g
+    exact (add_assoc _ _ _).symm
+  · show den syms e ⊓ (den syms f ⊓ den syms g) = den syms e ⊓ den syms f ⊓ den syms g
+    exact (inf_assoc _ _ _).symm
+
+/-! ## the empty regex and blank-only regexes (outside the grammar: `G` derives no empty list) -/
+
+/-- **The empty string and every string of blanks compile to the `{ε}` NFA** (fix 9e58d22; before
+it a blank-only regex raised `IndexError`), over every explicit alphabet without reserved
+characters and over the default alphabet (`input_symbols=None`, which is then empty): the NFA
+passes the constructor's validation and accepts exactly the empty word. -/
+theorem C10_blank_only (s : List Char) (h : ∀ c ∈ s, isBlank c = true) :
+    (∀ syms : List Char, (∀ c ∈ syms, isReserved c = false) →
+      ∃ N, fromRegex s (some syms) = .ok N ∧ N.validate = .ok () ∧
+        ∀ w, N.accepts w = true ↔ w = []) ∧
+    (∃ N, fromRegex s none = .ok N ∧ N.validate = .ok () ∧ N.syms = [] ∧
+      ∀ w, N.accepts w = true ↔ w = []) := by
+  have hl := (Builder.eps_spec (α := Char) 0).2
+  constructor
+  · intro syms hres
+    refine ⟨_, fromRegex_blanks h syms hres, epsNFA_valid syms, fun w => ?_⟩
+    rw [toNFA_accepts_iff _ _ (epsNFA_valid syms), hl]
+  · refine ⟨_, fromRegex_default_blanks h, epsNFA_valid _, ?_, fun w => ?_⟩
+    · show defaultSyms s = []
+      unfold defaultSyms
+      have : s.filter (fun c => !isReserved c) = [] := by
+        rw [List.filter_eq_nil_iff]
+        intro c hc
+        have hb : c = ' ' ∨ c = '\t' := by simpa [isBlank] using h c hc
+        rcases hb with rfl | rfl <;> decide
+      rw [this]
+      rfl
+    · rw [toNFA_accepts_iff _ _ (epsNFA_valid _), hl]
+
 /-! ## non-vacuity -/
 
 /-- `(a|b)*a{0,0}` as a tree … -/
@@ -171,5 +231,35 @@ example : tokensToPostfix (addConcat exToks) = .ok exTree.toPostfix := by decide
 example : (fromRegex "((a|b)) * a{0,0}".toList (some ['a', 'b'])).toOption.map
     (fun N => (N.accepts "ab".toList, N.accepts "aba".toList, N.accepts [], N.accepts "c".toList)) =
     some (true, true, true, false) := by decide
+
+/-- Blank-only strings: the hypothesis of `C10_blank_only` is met, the model compiles them to a
+one-state NFA accepting exactly ε. -/
+example : ∀ c ∈ " \t ".toList, isBlank c = true := by decide
+example : ((fromRegex " \t ".toList (some ['a', 'b'])).toOption.map
+    (fun N => (N.states.length, N.accepts [], N.accepts "a".toList)),
+    (fromRegex [] none).toOption.map (fun N => (N.states.length, N.accepts [], N.accepts "a".toList))) =
+    (some (1, true, false), some (1, true, false)) := by decide
+
+/-- `C10_same_den` is not vacuous: `a(bc)` and `abc` spell different trees with the same
+denotation (`C10_assoc_den`). -/
+example : G .E (.cat (.lit 'a') (.cat (.lit 'b') (.lit 'c')) : Rx Char)
+    [.str ['a'], .lparen, .str ['b'], .str ['c'], .rparen] :=
+  .term (.cat (.factor (.atom (.lit 'a')))
+    (.atom (.paren (.term (.cat (.factor (.atom (.lit 'b'))) (.atom (.lit 'c')))))))
+example : G .E (.cat (.cat (.lit 'a') (.lit 'b')) (.lit 'c') : Rx Char)
+    [.str ['a'], .str ['b'], .str ['c']] :=
+  .term (.cat (.cat (.factor (.atom (.lit 'a'))) (.atom (.lit 'b'))) (.atom (.lit 'c')))
+example : lex "a(bc)".toList = .ok [.str ['a'], .lparen, .str ['b'], .str ['c'], .rparen] := by
+  decide
+
+/-- A spelling with blanks INSIDE the braces (`a{ 1 , 2 }`, accepted by the code through
+`int()`'s strip) is a `Renders` instance, so all theorems above cover it. -/
+example : Renders [.str ['a'], .quant 1 (some 2)] "a{ 1 ,\t2 }".toList :=
+  .tok (.sym 'a' ⟨by decide, by decide⟩)
+    (.tok (.quant [' ', '1', ' '] ['\t', '2', ' '] 1 (some 2)
+      (Or.inr ⟨['1'], ⟨[' '], [' '], rfl, by decide, by decide, by simp, by decide⟩, by decide⟩)
+      (Or.inr ⟨['2'], ⟨['\t'], [' '], rfl, by decide, by decide, by simp, by decide⟩, by decide,
+        by decide⟩)) .nil)
+example : lex "a{ 1 ,\t2 }".toList = .ok [.str ['a'], .quant 1 (some 2)] := by decide
 
 end AV.Props.C10
